@@ -11,6 +11,11 @@
 (*          the relative round r and the number d of nodes of the block's   *)
 (*          complete state that a walk over the PERSISTENT store could not  *)
 (*          find; v = version below which state may be gone                 *)
+(*   Rollback  the REAL finalizeRound moved the latest finalized block back  *)
+(*          to the common ancestor of two notarized forks (round `to`); the  *)
+(*          finalized blocks above it are abandoned: they are no longer      *)
+(*          retained blocks, the blocks of the other fork that are finalized *)
+(*          afterwards at the same rounds replace them                       *)
 (* Rounds are relative to the trace start.  Txn lines are skipped (they     *)
 (* are validated by Trace_Ledger).                                          *)
 (***************************************************************************)
@@ -25,9 +30,11 @@ IsEvent(e) == l <= Len(Trace) /\ Trace[l].ev = e /\ l' = l + 1
 TraceReset == IsEvent("Reset") /\ ev' = Null /\ fins' = {}
 TraceBlock == IsEvent("Block") /\ ev' = Trace[l] /\ fins' = fins \cup {Trace[l].round}
 TracePrune == IsEvent("Prune") /\ ev' = Trace[l] /\ UNCHANGED fins
-TraceOther == /\ l <= Len(Trace) /\ Trace[l].ev \notin {"Reset", "Block", "Prune"}
+TraceRollback == /\ IsEvent("Rollback") /\ ev' = Trace[l]
+                 /\ fins' = {q \in fins : q <= Trace[l].to}
+TraceOther == /\ l <= Len(Trace) /\ Trace[l].ev \notin {"Reset", "Block", "Prune", "Rollback"}
               /\ l' = l + 1 /\ ev' = Null /\ UNCHANGED fins
-TraceNext == TraceReset \/ TraceBlock \/ TracePrune \/ TraceOther
+TraceNext == TraceReset \/ TraceBlock \/ TracePrune \/ TraceRollback \/ TraceOther
 TraceSpec == TraceInit /\ [][TraceNext]_vars
 
 IsBlock == ev.ev = "Block"
@@ -36,7 +43,9 @@ Checked == {ev.checked[i].r : i \in 1..Len(ev.checked)}
 
 (* harness: finalization and pruning ran without error, and every finalized block of the trace *)
 (* at or above the version was walked                                                          *)
+(* and a rollback moved the LFB to the fork's common ancestor, below the abandoned blocks      *)
 HarnessRan == /\ IsBlock => (ev.err = "" /\ ev.is_lfb)
+              /\ ev.ev = "Rollback" => (ev.ok /\ ev.to = ev.anc /\ ev.to < ev.from)
               /\ IsPrune => (ev.err = "" /\ \A q \in fins : q >= ev.v => q \in Checked)
 
 (* C27: after pruning below v the complete state of every retained block at or above v can be *)
